@@ -23,6 +23,15 @@ TEXT = {
          "through all 16 schema-taking entry points, which are also compared with each other.",
          "proof over a hand-written model of the checkers on concrete values; the resolved schema is serialised from Rust's ValidatorSchema (schema "
          "construction not modelled); correspondence is sampled (generators in harness/src/gen_schema.rs)"),
+ "C09": ("Lean theorems over a thin model of schema TYPE EXPRESSIONS and NAME RESOLUTION only: the parser of the Cedar type grammar inverts the printer of fmt.rs "
+         "(type_roundtrip, incl. attribute names that need quoting), JSON -> Cedar -> JSON maps an expression to its entity-or-common form (type_roundtrip_json), and on "
+         "declaration environments without common/entity clashes and without shadowing of empty-namespace definitions that form resolves every reference to the same "
+         "declaration (resolve_stable; both hypotheses shown necessary). Declarations (entities, actions, appliesTo, memberOf, enums, tags, annotations, namespaces) and "
+         "everything else are NOT modelled: they are covered by the four-way differential run on the implementation (JSON -> schema vs JSON -> to_cedarschema -> schema, "
+         "Cedar -> schema vs Cedar -> to_json_value -> schema, one further hop each, equality of ValidatorSchema plus identical policy/request/entity validation verdicts).",
+         "proof over a hand-written model of type expressions and name resolution; the full statement (FullStatement) is not proved and is in fact violated by the "
+         "implementation in three recorded corner cases (known_findings.jsonl: kinded references rebinding after translation, half-empty appliesTo dropped); "
+         "correspondence is sampled (generators in harness/src/gen_schema.rs, gen_schema_text.rs)"),
 }
 checks = []
 import re
